@@ -11,7 +11,7 @@ META = {
     'rule': 'pairs of DFAs over a common alphabet: exhaustive 2-state x 2-state over {a} plus seeded random 1-5 states; every '
             'construction compared with the Lean model (exact) and with an exact product-BFS language oracle (all word lengths); '
             'finite languages: random subsets of words <=3; non-trivial = both automata have >=2 reachable states / language with '
-            '>=2 words one a prefix of another; distinct by content; also chain DFAs (accepting states far apart), \'_\'-joined and comma names for products (the recorded product-name finding is decided per case)',
+            '>=2 words one a prefix of another; distinct by content; also chain DFAs (accepting states far apart), \'_\'-joined and comma names for products (the recorded product-name finding is decided per case); ring-shaped DFAs with hub states and few accepting states, DFAs with 11-13 numbered states',
     'assumptions': ['DFA.valid inputs (constructor); partial DFAs for make_total are built with check_validity=False',
                     'state names match \\w+ (product / set naming injective)'],
     'trusted_base': ['Spec: Gamba/Spec/Automata.lean'],
@@ -48,7 +48,7 @@ def cases(ctx):
         if not thorough or ctx.mine(i):
             yield {'kind': 'pair', 'D1': d1, 'D2': d2}
     for i in range(400 if not thorough else 4000):
-        d = gen.chain_dfa(rng) if i % 8 == 5 else gen.random_dfa(rng, 6)
+        d = gen.chain_dfa(rng) if i % 8 == 5 else gen.ring_dfa(rng) if i % 8 in (2, 6) else gen.numbered_dfa(rng) if i % 40 == 7 else gen.random_dfa(rng, 6)
         pd = gen.random_dfa(rng, 5, total=False)
         if not thorough or ctx.mine(i):
             yield {'kind': 'single', 'D': d, 'P': pd}
